@@ -260,8 +260,12 @@ def judge(case):
         if got != want:
             out.append(('copy %r is not the original with its counts divided by %d' % (c, k), '\t'.join(want), '\t'.join(got)))
     edges = [f for f in bf if edge_mentions(f, v, s)]
-    rest_before = sorted('\t'.join(f) for f in bf if not edge_mentions(f, v, s) and not (f[0] == 'S' and f[1] == s))
-    rest_after = sorted('\t'.join(f) for f in af if not any(edge_mentions(f, v, c) for c in [s] + new) and not (f[0] == 'S' and f[1] in [s] + new))
+    def path_over(f):
+        # a path through the multiplied segment depends on its links: it is not part of the untouched rest
+        return f[0] == 'P' and s in [x[:-1] for x in f[2].split(',')]
+    rest_before = sorted('\t'.join(f) for f in bf if not edge_mentions(f, v, s) and not (f[0] == 'S' and f[1] == s) and not path_over(f))
+    rest_after = sorted('\t'.join(f) for f in af if not any(edge_mentions(f, v, c) for c in [s] + new) and not (f[0] == 'S' and f[1] in [s] + new)
+                        and not path_over(f))
     if rest_before != rest_after:
         out.append(('multiplication changed lines that do not touch the segment', rest_before, rest_after))
     full = []
